@@ -14,17 +14,28 @@ class Crash(BaseException):
     """Simulated process death (BaseException: must not be swallowed by `except Exception`)."""
 
 
+class Interrupt(KeyboardInterrupt):
+    """The process dies through an exception delivered at a file-system operation (Ctrl-C, SIGTERM handler, I/O error): the
+    operation does not happen, but the interpreter still unwinds - `with` blocks close (and flush) their files, `finally`
+    clauses run - and what they do does reach the disk."""
+
+
 class VFS:
-    def __init__(self, files=None, bufsize=1, crash_at=None):
+    def __init__(self, files=None, bufsize=1, crash_at=None, interrupt_at=None):
         self.files = dict(files or {})  # path -> bytes
         self.bufsize = bufsize
         self.crash_at = crash_at
+        self.interrupt_at = interrupt_at  # operation at which an ordinary exception is raised once (see Interrupt)
+        self.interrupted = False
         self.ops = []  # log of operations that reached the disk
         self.dead = False
 
     def _op(self, name, *args):
         if self.dead:
             raise Crash()
+        if self.interrupt_at is not None and not self.interrupted and len(self.ops) == self.interrupt_at:
+            self.interrupted = True
+            raise Interrupt()
         if self.crash_at is not None and len(self.ops) == self.crash_at:
             self.dead = True
             raise Crash()
